@@ -32,6 +32,6 @@ PROP = dict(
 
 TEXT = dict(
     technique='Lean 4 proof: simulation between the decoder object (state machine) and a specification that only uses new decoders, by phases (start / header read / file id peeked / peek failed / dead / blind); loop-splitting lemma (the record loop of Decode continues the loop of PeekFileId), tail independence by a relational Hoare layer over the result monad (every function of the model on a longer stream does what it does on the shorter one), fuel irrelevance, header decode independent of the checksum option, Discard ends at the end of the data window wherever inside the window it starts; differential correspondence and the specification as oracle on the real decoder',
-    text='C07_history_indep (full strength, no exclusion): for every byte stream (< 4 GiB), option set, acyclic factory and every history of Decode / DecodeWithContext (context live, cancelled before the call, or cancelled at any record boundary during it) / PeekFileHeader / PeekFileId / Discard / Next / CheckIntegrity+re-seek / Reset(new reader, new options), every result the decoder object returns — outcome class, FIT, header, file id, listener calls — equals what the specification computes with new decoders on the bytes of the current sequence. C07_boundary_clean: every operation ending a sequence leaves per-sequence state and look-ups as new. C07_reset_is_new (no hypothesis at all): after Reset(r, opts) the whole state of the object equals decoder.New(r, opts); C07_integrity_check_is_new: after CheckIntegrity + re-seek a live decoder equals a new one on the same stream, whatever the check found. C07_rejected_everywhere: a sequence a new decoder rejects with e is rejected with e after every history. C07_decode_ignores_tail: what a new decoder returns on S ++ T is what it returns on S alone (same FIT, same listener calls, T left unread; same error unless S merely ended early) — so 'the stream from the current sequence on' in the specification is 'the sequence\'s bytes'. C07_peek_transparent / C07_former_witnesses: the witnesses of the three repaired findings now agree with the specification. F08 (look-ups surviving Discard / Reset / CheckIntegrity after PeekFileId), F10 (stale read-buffer bytes after a failing CheckIntegrity) and F09 (PeekFileId reading past a sequence without file_id) were reported by this check on the unchanged tree, repaired in /repo (bbd9d2d, 318ff80, 2f8ae41) and are now part of the proved statement; reverting any of the three makes the check print a VIOLATION again.',
+    text='C07_history_indep (full strength, no exclusion): for every byte stream (< 4 GiB), option set, acyclic factory and every history of Decode / DecodeWithContext (context live, cancelled before the call, or cancelled at any record boundary during it) / PeekFileHeader / PeekFileId / Discard / Next / CheckIntegrity+re-seek / Reset(new reader, new options), every result the decoder object returns — outcome class, FIT, header, file id, listener calls — equals what the specification computes with new decoders on the bytes of the current sequence. C07_boundary_clean: every operation ending a sequence leaves per-sequence state and look-ups as new. C07_reset_is_new (no hypothesis at all): after Reset(r, opts) the whole state of the object equals decoder.New(r, opts); C07_integrity_check_is_new: after CheckIntegrity + re-seek a live decoder equals a new one on the same stream, whatever the check found. C07_rejected_everywhere: a sequence a new decoder rejects with e is rejected with e after every history. C07_decode_ignores_tail: what a new decoder returns on S ++ T is what it returns on S alone (same FIT, same listener calls, T left unread; same error unless S merely ended early) — so "the stream from the current sequence on" in the specification is "the bytes of the sequence". C07_peek_transparent / C07_former_witnesses: the witnesses of the three repaired findings now agree with the specification. F08 (look-ups surviving Discard / Reset / CheckIntegrity after PeekFileId), F10 (stale read-buffer bytes after a failing CheckIntegrity) and F09 (PeekFileId reading past a sequence without file_id) were reported by this check on the unchanged tree, repaired in /repo (bbd9d2d, 318ff80, 2f8ae41) and are now part of the proved statement; reverting any of the three makes the check print a VIOLATION again.',
     note='No exclusion left. Proved about the model; tie = differential testing of whole histories (6-8k histories quick, 160k thorough, plus the decapi family).',
 )
